@@ -1,7 +1,10 @@
 // extract: go/ast fact extractors (tie R-fact). Reads /repo's current source and writes Lean tables
 // under lean/Zrnt/Gen/. Each table lives in its own file of this package and registers itself in `tables`.
 //
-//	extract <repo> <lean/Zrnt/Gen dir>
+//	extract <repo> <lean/Zrnt/Gen dir> [table ...]
+//
+// Prints one line per table on stdout: `TABLE <name> ok` or `TABLE <name> FAIL <message>`; the check
+// driver charges a failed table only to the properties that depend on it.
 //
 // A table writer must (1) fail loudly (non-zero exit) on source shapes it does not understand rather
 // than skip them silently, (2) only rewrite its output file when the content changed.
@@ -11,6 +14,7 @@ import (
 	"fmt"
 	"os"
 	"path/filepath"
+	"strings"
 )
 
 type table struct {
@@ -35,19 +39,35 @@ func writeIfChanged(path string, content string) error {
 	return os.WriteFile(path, []byte(content), 0o644)
 }
 
+// runTable converts a panic inside a table writer into an error for that table only.
+func runTable(t table, repo, outDir string) (err error) {
+	defer func() {
+		if r := recover(); r != nil {
+			err = fmt.Errorf("panic: %v", r)
+		}
+	}()
+	return t.run(repo, outDir)
+}
+
 func main() {
-	if len(os.Args) != 3 {
-		fmt.Fprintln(os.Stderr, "usage: extract <repo> <outdir>")
+	if len(os.Args) < 3 {
+		fmt.Fprintln(os.Stderr, "usage: extract <repo> <outdir> [table ...]")
 		os.Exit(2)
 	}
-	failed := false
-	for _, t := range tables {
-		if err := t.run(os.Args[1], os.Args[2]); err != nil {
-			fmt.Fprintf(os.Stderr, "extract %s: %v\n", t.name, err)
-			failed = true
-		}
+	want := map[string]bool{}
+	for _, a := range os.Args[3:] {
+		want[a] = true
 	}
-	if failed {
-		os.Exit(1)
+	for _, t := range tables {
+		if len(want) > 0 && !want[t.name] {
+			continue
+		}
+		err := runTable(t, os.Args[1], os.Args[2])
+		if err != nil {
+			fmt.Fprintf(os.Stderr, "extract %s: %v\n", t.name, err)
+			fmt.Printf("TABLE %s FAIL %s\n", t.name, strings.ReplaceAll(err.Error(), "\n", " "))
+		} else {
+			fmt.Printf("TABLE %s ok\n", t.name)
+		}
 	}
 }
